@@ -43,11 +43,62 @@ func (m *Machine) classPred(class int) func(ch *sym.Term) *sym.Term {
 	return func(ch *sym.Term) *sym.Term { return c.CharRange(ch, 0x01, 0x7f) }
 }
 
+type domFact struct {
+	ch   *sym.Term
+	pred func(b byte) bool
+	s    *sym.Str
+	i    int
+}
+
+// flushDomains installs pending character domains for positions that are provably live
+// (index < length with a constant length).
+func (m *Machine) flushDomains() {
+	keep := m.domPending[:0]
+	for _, f := range m.domPending {
+		if f.s.Len.IsConst() {
+			if uint64(f.i) < f.s.Len.Val {
+				m.C.SetDomain(f.ch, f.pred)
+			}
+			continue
+		}
+		keep = append(keep, f)
+	}
+	m.domPending = keep
+}
+
+func classBytePred(class int) func(b byte) bool {
+	in := func(b byte, set string) bool { return strings.IndexByte(set, b) >= 0 }
+	alnum := func(b byte) bool { return b >= '0' && b <= '9' || b >= 'A' && b <= 'Z' || b >= 'a' && b <= 'z' }
+	switch class {
+	case ClassPath:
+		return func(b byte) bool { return alnum(b) || in(b, "/._-") }
+	case ClassName:
+		return func(b byte) bool { return alnum(b) || in(b, "._-") }
+	case ClassValue:
+		return func(b byte) bool { return b >= 0x21 && b <= 0x7e && !in(b, "{}|") }
+	case ClassSmall:
+		return func(b byte) bool { return in(b, "ab./_-") }
+	case ClassPrint:
+		return func(b byte) bool { return b >= 0x20 && b <= 0x7e }
+	}
+	return func(b byte) bool { return b >= 1 && b <= 0x7f }
+}
+
 func (m *Machine) newSymStr(name string, max int, class int) *sym.Str {
 	s, bound := m.C.StrVar(name, max)
 	m.declInput(&InputDecl{Name: name, Kind: "str", Max: max, Str: s})
 	m.assertPC(bound)
 	m.assertPC(m.C.AllChars(s, m.classPred(class)))
+	// the same fact as syntactic knowledge for the simplifier: domains of the live chars.
+	// (chars beyond the length are don't-care, restricting them too is harmless: they are
+	// never part of the value; we keep the solver-side constraint guarded and only give the
+	// simplifier the unguarded version for positions that are certainly live)
+	cp := classBytePred(class)
+	for i, ch := range s.Ch {
+		_ = i
+		m.domPending = append(m.domPending, domFact{ch, cp, s, i})
+	}
+	m.flushDomains()
 	return s
 }
 
@@ -112,6 +163,13 @@ func (m *Machine) callVx(fn *ssa.Function, a []Value) Value {
 		}
 		structural := m.mustStr(a[1], "vxShape chars")
 		n := int(m.Concretize(c.Zext(st.Len, 32), false))
+		// the length is now a constant: class facts of the live characters become
+		// syntactic knowledge of the simplifier
+		for _, f := range m.domPending {
+			if f.s.Len == st.Len && f.i < n {
+				m.C.SetDomain(f.ch, f.pred)
+			}
+		}
 		r := &sym.Str{Len: c.L(n), Ch: make([]*sym.Term, n)}
 		for i := 0; i < n; i++ {
 			r.Ch[i] = st.Ch[i]
